@@ -874,6 +874,8 @@ func (s Settings) Apply() (restore func()) {
 	zerolog.TimeFieldFormat = s.GoTimeFormat()
 	if s.DurUnit > 0 {
 		zerolog.DurationFieldUnit = time.Duration(s.DurUnit)
+	} else if s.DurUnit == -1 && !s.DurInt {
+		zerolog.DurationFieldUnit = 0
 	}
 	zerolog.DurationFieldInteger = s.DurInt
 	zerolog.FloatingPointPrecision = s.FloatPrec
@@ -931,6 +933,15 @@ func (s Settings) Apply() (restore func()) {
 		zerolog.ErrorStackMarshaler = nil
 	}
 	switch s.IfaceMarshal {
+	case "fail":
+		// the program's marshal function gives up on everything but nil, with a text of its own
+		text := s.IfaceErr
+		zerolog.InterfaceMarshalFunc = func(v interface{}) ([]byte, error) {
+			if v == nil {
+				return []byte("null"), nil
+			}
+			return nil, errors.New(text)
+		}
 	case "stdjson":
 		zerolog.InterfaceMarshalFunc = json.Marshal
 	case "wrap":
@@ -1043,9 +1054,44 @@ func (poisonHook) Run(e *zerolog.Event, l zerolog.Level, m string) {
 	e.Str("POISON", "a hook slice reused by the caller reached the logger")
 }
 
+// nilPtrHook is used as a typed-nil pointer, nilFieldHook as a struct whose only field is a nil
+// pointer: either way the interface value's data word is nil while the hook is perfectly usable.
+type nilPtrHook struct{ _ int }
+
+func (*nilPtrHook) Run(e *zerolog.Event, l zerolog.Level, m string) {
+	nilHookRt.HookCalls = append(nilHookRt.HookCalls, HookCall{nilHookID["nilptr"], l, m, CtxMarker(e.GetCtx())})
+	e.Str(NilHookKey, "ran")
+}
+
+type nilFieldHook struct{ p *int }
+
+func (nilFieldHook) Run(e *zerolog.Event, l zerolog.Level, m string) {
+	nilHookRt.HookCalls = append(nilHookRt.HookCalls, HookCall{nilHookID["nilfield"], l, m, CtxMarker(e.GetCtx())})
+	e.Str(NilHookKey, "ran")
+}
+
+// such hooks have no state of their own: the run they belong to and their id (at most one hook of
+// each of the two kinds per program) are kept here
+var (
+	nilHookRt *Rt
+	nilHookID = map[string]int{}
+)
+
+// DefaultCtxKey is the context field of the DefaultContextLogger a program may install.
+const DefaultCtxKey = "via"
+
+// NilHookKey is the field the two hooks above add.
+const NilHookKey = "nilhook"
+
 func (rt *Rt) MkHook(s HookSpec) zerolog.Hook {
 	h := hookImpl{s, rt}
 	switch s.Wrap {
+	case "nilptr":
+		nilHookRt, nilHookID["nilptr"] = rt, s.ID
+		return (*nilPtrHook)(nil)
+	case "nilfield":
+		nilHookRt, nilHookID["nilfield"] = rt, s.ID
+		return nilFieldHook{}
 	case "func":
 		return zerolog.HookFunc(h.Run)
 	case "level":
@@ -1211,6 +1257,12 @@ func Run(p *Program) (res Result) {
 		}
 	}()
 	root := zerolog.New(writers[0])
+	if p.Set.DefaultCtx {
+		// the program's fallback for contexts without a logger: writes to the root destination
+		dl := zerolog.New(writers[0]).With().Str(DefaultCtxKey, "default-context-logger").Logger()
+		zerolog.DefaultContextLogger = &dl
+		defer func() { zerolog.DefaultContextLogger = nil }()
+	}
 	nodes := make([]*zerolog.Logger, len(p.Steps))
 	get := func(i int) *zerolog.Logger {
 		if i < 0 {
